@@ -136,6 +136,8 @@ class Subject:
             self.kept.pop(op[1], None)
             return
         ps = [E.abspath("/", p) for p in (op[2:3] if k == "copyfrom" else op[1:3]) if isinstance(p, str)]
+        if k == "at":  # operation through a sub-group handle: the paths it names (relative to the group, or absolute)
+            ps = list(E.op_paths(op))
         if k == "copyobj" and op[3]:
             ps.append(E.abspath("/", op[2]).rstrip("/") + "/" + op[3])
         for kp in list(self.kept):
